@@ -167,7 +167,10 @@ class SymMap:
             raise Unsupported('map key sort %s vs %s' % (zk.sort(), self.ksort))
 
     def copy(self):
-        return SymMap(self.ksort, self.fields, self.dom, self.default, self.untracked, self.pending)
+        m = SymMap(self.ksort, self.fields, self.dom, self.default, self.untracked, self.pending)
+        if getattr(self, 'may_hold_none', None) is not None:
+            m.may_hold_none = self.may_hold_none
+        return m
 
 
 class MapEntry:
